@@ -201,7 +201,22 @@ def _coord_check(ctx, fn, region, rows_sym, cols_sym, label):
             ctx.fail(f"{fn.qual}#{label}:{axis}", f"no '{axis}' index coordinate is attached", where=fn, node=region)
             continue
         c, a = found[axis]
-        ok = isinstance(a, ast.Call) and call_name(a) in ("range", "np.arange") and len(a.args) == 1 and norm(a.args[0]) in syms
+
+        def _peel(e):
+            """X.shape of a shape-preserving copy of X is X.shape: np.array(X) / np.asarray(X) / X.copy() / X.astype(..)."""
+            if isinstance(e, ast.Subscript) and isinstance(e.value, ast.Attribute) and e.value.attr == "shape":
+                base = e.value.value
+                while True:
+                    if isinstance(base, ast.Call) and call_name(base) in ("np.array", "np.asarray", "numpy.array", "numpy.asarray", "np.copy") and base.args:
+                        base = base.args[0]
+                    elif isinstance(base, ast.Call) and isinstance(base.func, ast.Attribute) and base.func.attr in ("copy", "astype"):
+                        base = base.func.value
+                    else:
+                        break
+                return f"{norm(base)}.shape[{norm(e.slice)}]"
+            return norm(e)
+
+        ok = isinstance(a, ast.Call) and call_name(a) in ("range", "np.arange") and len(a.args) == 1 and (norm(a.args[0]) in syms or _peel(a.args[0]) in syms)
         ctx.check(ok, f"{fn.qual}#{label}:{axis}", f"{axis} = range({norm(a.args[0]) if ok else ''})" if ok else f"'{axis}' coordinate is {norm(a)} (expected range over {sorted(syms)[0]})", where=fn, node=c)
 
 
@@ -599,6 +614,20 @@ def r7_slices_do_not_alias(ctx):
             sts = [st for st, t in stores(empty.node, lambda t: dotted(t) == "self._array")]
             rebinding = bool(sts) and all(not enclosing_tests(st) for st in sts)
             inplace = [c for c in calls_in(empty.node) if dotted(c.func) in ("self._array.fill",)] + [st for st, t in stores(empty.node, lambda t: isinstance(t, ast.Subscript) and dotted(t.value) == "self._array")] + [st for st in walk_ordered(empty.node) if isinstance(st, ast.AugAssign) and dotted(st.target) in ("self._array", "self.array")]
+        # within ONE step the debug capture takes a record after every model: a container whose array is changed
+        # in place by any of its methods (`self._array += ..`, `self._array[..] = ..`) must hand out a copy, or the
+        # record taken after one model changes when the next model of the step writes
+        mutators = []
+        for mname, mfn in ci.methods.items():
+            if mname in ("empty", "__init__"):
+                continue
+            for st_ in walk_ordered(mfn.node):
+                if (isinstance(st_, ast.AugAssign) and dotted(st_.target) == "self._array") or (isinstance(st_, (ast.Assign, ast.AugAssign)) and any(isinstance(t_, ast.Subscript) and dotted(t_.value) == "self._array" for t_ in (st_.targets if isinstance(st_, ast.Assign) else [st_.target]))):
+                    mutators.append((mname, st_))
+        if mutators and not copies:
+            ctx.fail(fq + "#alias-within-step", f"to_xarray hands out the container's own array while `{mutators[0][0]}` changes it in place (`{norm(mutators[0][1])[:50]}`): the debug record taken after one model shows what later models of the same step added", where=f, node=das[0] if das else f.node)
+        else:
+            ctx.ok(fq + "#alias-within-step", "records do not share memory with an array that is updated in place" if mutators else "the array is never updated in place", where=f, node=das[0] if das else f.node)
         ok = copies or (rebinding and not inplace)
         if copies:
             why = "to_xarray copies the array"
